@@ -14,7 +14,8 @@ def run(ctx):
     repo = ctx.repo
     ex = exceptions(repo)
     ctx.decided = ['C15.1 key safety of the connection tables', 'C15.2 open on first sight / close removes and forwards / identity', 'C15.3 thread mismatch only warns',
-                   'C15.4 no KeyError/RuntimeError escapes the destroy breakpoint from the plugin\'s own code']
+                   'C15.4 no KeyError/RuntimeError escapes the destroy breakpoint from the plugin\'s own code',
+                   'C15.5 behind the plugin: messages are routed by the address of their connection, a re-opened address is a new connection (C04.2, C04.4 lifted)']
     ctx.undecided = ['GDB/libwayland behaviour itself']
     f_pm = repo.func('Plugin.process_message')
     f_open = repo.func('Plugin.open_connection')
@@ -126,5 +127,12 @@ def run(ctx):
     esc = [rs for rs in esc if not is_safe(rs)]
     ctx.check(not esc, 'C15.4', 'destroy-breakpoint:escape-set', f_dstop.loc(), 'no KeyError / RuntimeError can escape the destroy breakpoint from the tool\'s own code',
               'the destruction of a connection can raise out of stop(): %s' % sorted(r_.key() for r_ in esc)[:3])
+    # ---- C15.5 behind the plugin ----------------------------------------------------------------------------------
+    # The plugin only announces opens / closes and hands messages on with the address as identifier; that each message then reaches the
+    # connection that is open under that address NOW (not one remembered from an earlier message), and that an address opened again is
+    # a new connection, is decided by the connection manager's own rules - their findings are findings here.
+    from . import common as _common, c04 as _c04
+    _common.lift(ctx, 'C15.5', 'behind-the-plugin', _c04, 'C04', ('C04.2', 'C04.4'),
+                 'a message on an address must be delivered to the connection open at that address now; an address opened again is a new connection', floor=4)
     return ('key-presence analysis of the connection tables over all paths, scenario evaluation of open-on-first-sight, exception escape set of '
             'the destroy breakpoint. Decided: %s. Undecided: %s' % ('; '.join(ctx.decided), '; '.join(ctx.undecided)))
